@@ -62,6 +62,8 @@ type Contract struct {
 	Trusted    string
 	Pure       bool
 	Lemmas     []*Clause
+	Synth      bool
+	defaultsApplied bool
 	OrderTags  []string
 	Unordered  map[string]string
 	AssumeUserFn bool
@@ -163,6 +165,14 @@ func (g *Gen) loadContractFile(path string) error {
 			g.contracts[key] = cur
 			g.contractOrder = append(g.contractOrder, key)
 			lastClause = nil
+		case "package-wide":
+			// package-wide errors[C19] safety[C10] ... : default tags for every function of the package
+			for _, m := range regexp.MustCompile(`(safety|errors|frame|locks|order)\s*\[([A-Z0-9, ]+)\]`).FindAllStringSubmatch(rest, -1) {
+				if g.pkgDefaults[pkg] == nil {
+					g.pkgDefaults[pkg] = map[string][]string{}
+				}
+				g.pkgDefaults[pkg][m[1]] = append(g.pkgDefaults[pkg][m[1]], parseProps(m[2])...)
+			}
 		case "global":
 			f := strings.Fields(rest)
 			if len(f) < 2 {
@@ -331,6 +341,44 @@ func parseClause(kind, rest, path string, ln int) (*Clause, error) {
 // contractFor finds the contract applying to a function (exact name, or a
 // generic pattern `Name[*]` for instantiations).
 func (g *Gen) contractFor(canon string) *Contract {
+	c := g.explicitContract(canon)
+	pkg := canon
+	if i := strings.Index(canon, "."); i > 0 {
+		pkg = canon[:i]
+	}
+	d := g.pkgDefaults[pkg]
+	if d == nil {
+		return c
+	}
+	if c == nil {
+		if s, ok := g.synth[canon]; ok {
+			return s
+		}
+		c = &Contract{Pkg: pkg, Func: strings.TrimPrefix(canon, pkg+"."), LoopInv: map[int][]*Clause{}, LoopDec: map[int]*Clause{}, LoopMods: map[int][]string{},
+			Absorbs: map[string]string{}, Unordered: map[string]string{}, RangeOver: map[int]*Clause{}, CallAsserts: map[string][]*Clause{}, SafetyAt: map[string][]string{}, ModAt: map[string][]string{}, Synth: true}
+		g.synth[canon] = c
+	}
+	if !c.defaultsApplied {
+		c.defaultsApplied = true
+		c.SafetyTags = mergeProps(c.SafetyTags, d["safety"])
+		c.ErrorTags = mergeProps(c.ErrorTags, d["errors"])
+		c.FrameTags = mergeProps(c.FrameTags, d["frame"])
+		c.LockTags = mergeProps(c.LockTags, d["locks"])
+		c.OrderTags = mergeProps(c.OrderTags, d["order"])
+	}
+	return c
+}
+
+func mergeProps(a, b []string) []string {
+	for _, x := range b {
+		if !hasProp(a, x) {
+			a = append(a, x)
+		}
+	}
+	return a
+}
+
+func (g *Gen) explicitContract(canon string) *Contract {
 	if c, ok := g.contracts[canon]; ok {
 		return c
 	}
